@@ -944,7 +944,12 @@ func RTakeAll(c *core.Ctx) {
 		}
 	}
 	if whole {
-		c.OK("UnmarshalText / the whole Regexp value is replaced", fn.Pos(), "*re = *new")
+		var kept []string
+		for f := range assigned {
+			kept = append(kept, f)
+		}
+		sort.Strings(kept)
+		c.Check(len(kept) == 0, "UnmarshalText / the whole Regexp value is replaced", fn.Pos(), "after *re = *new the fields %v are assigned again (kept from the old receiver): the runner pool taken over from the new Regexp still points at the new object's settings, so the receiver reports one configuration (stack limit, timeout) and runs on another", kept)
 		return
 	}
 	// fields written by initCaches
